@@ -256,17 +256,23 @@ NEG_CONTROLS = [
 
 
 def run_models(tier):
-    """The S-layer model-checked by itself + its negative controls (threads: JVMs)."""
-    jobs = [(f"C20_Model_{tier}_fuse", None), (f"C20_Model_{tier}_daf", None)] + NEG_CONTROLS
+    """The S-layer model-checked by itself + its negative controls.  Three threads: the two
+    model runs side by side, the (short) negative controls one after the other."""
     res = {}
 
     def one(job):
         cfg, expect = job
-        return cfg, expect, kit.run_tlc("C20_Model", cfg, workers=4, heap="4g", timeout=7200, env=JVM_ENV)
+        return cfg, expect, kit.run_tlc("C20_Model", cfg, workers=4 if expect is None else 2,
+                                        heap="4g", timeout=7200, env=JVM_ENV)
 
-    with cf.ThreadPoolExecutor(max_workers=len(jobs)) as ex:
-        for cfg, expect, r in ex.map(one, jobs):
-            res[cfg] = (expect, r)
+    def chain(jobs):
+        return [one(j) for j in jobs]
+
+    chains = [[(f"C20_Model_{tier}_fuse", None)], [(f"C20_Model_{tier}_daf", None)], NEG_CONTROLS]
+    with cf.ThreadPoolExecutor(max_workers=len(chains)) as ex:
+        for part in ex.map(chain, chains):
+            for cfg, expect, r in part:
+                res[cfg] = (expect, r)
     return res
 
 
@@ -319,7 +325,7 @@ def run_tlaps(wd):
 
 # ------------------------------------------------------------------------ run
 def _judge(recs, wd, prefix="c20", jvms=3):
-    shards = kit.write_shards(recs, wd / "trace", prefix, 10000 if prefix.endswith("G") else 4000)
+    shards = kit.write_shards(recs, wd / "trace", prefix, 10000 if prefix[-1] in "GL" else 4000)
     return kit.judge_shards("C20_Judge", "C20_Judge", shards, jvms=jvms, workers=4, env=JVM_ENV)
 
 
@@ -366,7 +372,7 @@ def _drift(recs, failing_first):
     return n, examples
 
 
-GROUPS = ("FHR", "D", "G")
+GROUPS = ("FHR", "D", "G", "L")
 ID_STRIDE = 10_000_000
 
 
@@ -402,6 +408,12 @@ def _pipeline(group, gi, tier, seed, wd):
     t2 = time.time()
     verdicts, st, tr = _judge(recs, wd, prefix=f"c20{group}")
     t3 = time.time()
+    # totality: one TLC state per (record, events consumed); a judge that got stuck or lost a
+    # record would generate fewer
+    expected = sum(len(r["ev"]) + 1 if r["k"] == "hist" else 1 for r in recs)
+    if st != expected:
+        raise kit.MachineryError(f"C20_Judge {group}: {st} trace states for {expected} expected "
+                                 f"(some record was not judged to its end)")
     kit.log(f"C20[{group}]: {len(cases)} behaviours; gen {t1 - t0:.0f}s drive {t2 - t1:.0f}s "
             f"judge {t3 - t2:.0f}s")
     stats.update(judge_states=st, judge_transitions=tr,
@@ -412,7 +424,7 @@ def _pipeline(group, gi, tier, seed, wd):
 def run(tier, seed, out):
     wd = kit.fresh_workdir(PROP)
     recs, verdicts = [], []
-    with cf.ThreadPoolExecutor(max_workers=5) as ex:
+    with cf.ThreadPoolExecutor(max_workers=6) as ex:
         fmodels = ex.submit(run_models, tier)
         ftlaps = ex.submit(run_tlaps, wd)
         futs = [ex.submit(_pipeline, g, gi, tier, seed, wd) for gi, g in enumerate(GROUPS)]
@@ -456,7 +468,9 @@ def run(tier, seed, out):
                 "dependency DAG, (D) streams of 1-2 statements from a pool of 16 bodies x 4 filters, each "
                 "driven through disambiguate_identifiers and disambiguate_and_fuse, (H) histories of "
                 "repeated fusion / disambiguate-and-fuse over 4 base streams, (R) statements "
-                "lhs x rhs x cond, (G) every labelled DAG with <= 5 nodes; non-trivial = a history with a "
+                "lhs x rhs x cond, (G) every labelled DAG with <= 5 nodes, (L) chains of 6-8 nodes with "
+                "shortcut edges in 3 list orders; the thorough tier adds seeded -simulate histories of "
+                "length 5; non-trivial = a history with a "
                 "non-empty operand, a non-nop statement, a DAG with an edge; distinct by digest of the case")
     out.exhaustive = True   # the -simulate histories of the thorough tier come on top
     out.assumptions += [
